@@ -67,6 +67,11 @@ type RouterEnv struct {
 	keyedTTL   uint32
 	keyedDelay time.Duration
 	KeyedCount atomic.Int64 // upstream exchanges served by the keyed behaviour
+	// KeyedAllowed, when set, is the set of question keys the clients may ask: an upstream query for any other
+	// question (a torn or recycled question) is counted in KeyedForeign and remembered in KeyedForeignSample
+	KeyedAllowed       map[string]bool
+	KeyedForeign       atomic.Int64
+	KeyedForeignSample atomic.Value
 }
 
 func FreePort() int {
@@ -146,6 +151,10 @@ func (e *RouterEnv) lookup(idx int, proto string, wire []byte) (Behaviour, bool)
 		// keyed mode does not keep a per-question log (it would grow without bound under load)
 		delete(e.queries, key)
 		e.KeyedCount.Add(1)
+		if e.KeyedAllowed != nil && !e.KeyedAllowed[key] {
+			e.KeyedForeign.Add(1)
+			e.KeyedForeignSample.CompareAndSwap(nil, Hex(wire))
+		}
 		var d time.Duration
 		if e.keyedDelay > 0 && len(wire) >= 2 {
 			h := sha256.Sum256(wire)
